@@ -117,8 +117,11 @@ def run_property(modname: str, tier: str) -> int:
                 labels[k] = labels.get(k, 0) + v
             for k, v in (r.get("unknown_reasons") or {}).items():
                 unknown_reasons[k] = unknown_reasons.get(k, 0) + v
-        all_exhausted = all(r.get("exhausted") for r in results) and not harness_errors
-        exhaustive = bool(all_exhausted and tot["unknown"] == 0)
+        # shards marked "exploratory" deepen the search beyond the bound that is claimed exhaustively
+        core = [r for r, s in zip(results, shard_list) if not s.get("exploratory")]
+        expl = [r for r, s in zip(results, shard_list) if s.get("exploratory")]
+        all_exhausted = all(r.get("exhausted") for r in core) and not harness_errors
+        exhaustive = bool(all_exhausted and sum(int(r.get("unknown", 0) or 0) for r in core) == 0)
         samples = []
         for r in results:
             for s in (r.get("samples") or [])[:2]:
@@ -224,7 +227,12 @@ def run_property(modname: str, tier: str) -> int:
             "cpu_s": round(tot_cpu, 2),
             "shards": [{"name": r["shard"], "paths": r.get("paths", 0), "ok": r.get("ok", 0),
                         "unknown": r.get("unknown", 0), "exhausted": bool(r.get("exhausted")),
-                        "stopped_by": r.get("stopped_by"), "cpu_s": r.get("cpu_s")} for r in results],
+                        "stopped_by": r.get("stopped_by"), "cpu_s": r.get("cpu_s"),
+                        **({"exploratory": True} if s.get("exploratory") else {})}
+                       for r, s in zip(results, shard_list)],
+            "exploratory_shards": {"count": len(expl), "exhausted": sum(1 for r in expl if r.get("exhausted")),
+                                   "meaning": "shards beyond the exhaustively claimed bound; 'exhaustive' above does not "
+                                              "cover them, they only add explored paths"},
             "violating_path_classes": {k: sum(int((r.get("violation_keys") or {}).get(k, 0)) for r in results)
                                        for k in by_key},
             "known_findings_observed": known_lines,
